@@ -100,7 +100,7 @@ func answer(r ring.ReadRing, q query, base time.Time) string {
 	return ""
 }
 
-var updateKinds = []string{"heartbeat", "heartbeat", "state", "tokens", "zone", "addr", "reg", "ro", "rots", "versions", "add", "remove", "swap", "swap", "joiner", "joiner", "same", "query", "query", "query"}
+var updateKinds = []string{"heartbeat", "heartbeat", "state", "tokens", "zone", "addr", "reg", "ro", "rots", "versions", "add", "remove", "swap", "swap", "joiner", "joiner", "handover", "handover", "same", "query", "query", "query"}
 
 func TestInstanceRingHistoryRapid(t *testing.T) {
 	rapid.Check(t, func(rt *rapid.T) {
@@ -209,6 +209,39 @@ func TestInstanceRingHistoryRapid(t *testing.T) {
 				case "state":
 					in.State = rapid.SampledFrom([]ring.InstanceState{ring.ACTIVE, ring.LEAVING, ring.PENDING, ring.JOINING}).Draw(rt, "state")
 					cur[pick] = in
+				case "handover":
+					// a token changes hands (conflict resolution, a takeover): the set of tokens in the ring, and in
+					// each zone when the other instance is in the same zone, stays what it was
+					if len(in.Tokens) < 2 {
+						break
+					}
+					var others []string
+					for _, o := range xs {
+						if o != pick && cur[o].Zone == in.Zone {
+							others = append(others, o)
+						}
+					}
+					if len(others) == 0 {
+						for _, o := range xs {
+							if o != pick {
+								others = append(others, o)
+							}
+						}
+					}
+					if len(others) == 0 {
+						break
+					}
+					to := others[rapid.IntRange(0, len(others)-1).Draw(rt, "handoverTo")]
+					ti := rapid.IntRange(0, len(in.Tokens)-1).Draw(rt, "handoverTok")
+					tok := in.Tokens[ti]
+					nt := append(append([]uint32(nil), in.Tokens[:ti]...), in.Tokens[ti+1:]...)
+					in.Tokens = nt
+					cur[pick] = in
+					oi := cur[to]
+					ot := append(append([]uint32(nil), oi.Tokens...), tok)
+					sort.Slice(ot, func(a, b int) bool { return ot[a] < ot[b] })
+					oi.Tokens = ot
+					cur[to] = oi
 				case "joiner":
 					// an instance registers without tokens (it has not chosen them yet), in one of the zones or in
 					// a zone of its own that no token owner is in; it gets its tokens with a later "tokens" update
